@@ -18,7 +18,7 @@ RULE = (
     "(-0.0, 1e308, 5e-324); distinct = hash of the configuration"
 )
 ASSUMPTIONS = ["no NaN/Infinity and no lone surrogates (not JSON-representable)", "attribute keys as in C10"]
-GATES = ["mon.C11.export", "mon.C11.write", "mon.C11.import", "mon.C11.read", "C11.maxlevel_forwarded", "C11.custom_dictexporter", "C11.importer_kwargs", "C11.non_ascii", "C11.realfile", "C11.exporter_reused", "C11.handle_not_at_start", "C11.subclassed_dictexporter", "C11.tree_used_before_export", "C11.export_failed_then_reused", "C11.export_failed_below_start"]
+GATES = ["mon.C11.export", "mon.C11.write", "mon.C11.import", "mon.C11.read", "C11.maxlevel_forwarded", "C11.custom_dictexporter", "C11.importer_kwargs", "C11.non_ascii", "C11.realfile", "C11.exporter_reused", "C11.handle_not_at_start", "C11.subclassed_dictexporter", "C11.tree_used_before_export", "C11.export_failed_then_reused", "C11.export_failed_below_start", "C11.write_only_handle", "C11.default_export_failed_before"]
 
 
 def plan(tier, seed, jobs):
@@ -212,6 +212,41 @@ def check_one(ctx, lib, rng, par, attrs, kind, case):
             if not same:
                 ctx.violation("C11/export/after-failed-export", "json-dumps-of-reference", dict(case, json_opts=repr(jopts), maxlevel=je2.maxlevel, start=sx), expected=want[:500], observed=str(gotx)[:500])
                 return False
+        # a handle that can only be written to (a pipe, a socket wrapper, a logging sink)
+        class Sink:
+            def __init__(self):
+                self.parts = []
+
+            def write(self, text):
+                self.parts.append(text)
+                return len(text)
+
+        ctx.count("C11.write_only_handle")
+        sink = Sink()
+        je3 = JsonExporter(**jopts)
+        want3 = json.dumps(c10.ref_export(recorded, ch, 0, None, None, None, dict), **jopts)
+        try:
+            je3.write(nodes[0], sink)
+            got3 = "".join(sink.parts)
+        except Exception as e:  # noqa: B902
+            got3 = "raised %r" % (e,)
+        if got3 != want3 and got3 != call_export(je3, nodes[0]):
+            ctx.violation("C11/write/write-only-handle", "write-equals-export", dict(case, json_opts=repr(jopts)), expected=want3[:400], observed=got3[:400])
+            return False
+        # an export through the built-in default DictExporter failed earlier in this process (not a tree node at all)
+        ctx.count("C11.default_export_failed_before")
+        try:
+            JsonExporter(maxlevel=1, **jopts).export(object())
+        except Exception:  # noqa: B902
+            pass
+        gotd = call_export(JsonExporter(**jopts), nodes[0])
+        try:
+            same = c10.deep_eq(c10._plain(json.loads(gotd)), c10._plain(json.loads(want3)))
+        except (ValueError, TypeError):
+            same = False
+        if not same:
+            ctx.violation("C11/export/after-failed-default-export", "json-dumps-of-reference", dict(case, json_opts=repr(jopts)), expected=want3[:500], observed=str(gotd)[:500])
+            return False
         # one exporter object re-used while its public attributes are reassigned
         ctx.count("C11.exporter_reused")
         je = JsonExporter(**jopts)
